@@ -212,11 +212,16 @@ func Signature(tier string) (Family, map[string]SigExpect) {
 					if al == "wn" && k.Decl == "" && k.Name != "string" {
 						continue
 					}
-					for _, v := range validators {
+					vs := validators
+					if strings.HasPrefix(k.Name, "[]") {
+						// element rules: everything after `dive` concerns the elements, not the slice
+						vs = append(append([]string{}, validators...), "dive", "dive,min=2")
+					}
+					for _, v := range vs {
 						if al == "wn" && v != "" && v != "required" && tier != "thorough" {
 							continue
 						}
-						if strings.Contains(v, "min") && (k.Name == "bool" || strings.HasPrefix(k.Name, "[]") || k.Name == "struct" || k.Name == "map") && tier != "thorough" {
+						if strings.Contains(v, "min") && !strings.HasPrefix(v, "dive") && (k.Name == "bool" || strings.HasPrefix(k.Name, "[]") || k.Name == "struct" || k.Name == "map") && tier != "thorough" {
 							continue
 						}
 						b.add("sig-1param", []pSpec{{kind: k, loc: loc, ptr: ptr, alias: al, validate: v, name: "p"}}, plainRet,
